@@ -926,7 +926,13 @@ def normalize_cond(c, holds=True):
     """Canonical text of a branch condition that is known to evaluate to `holds`: comparison operators are negated for holds == False, the
     constant / shorter operand is put on the right, `ne(a, b)` / `eq(a, b)` are written as comparisons, a bare boolean term is prefixed with
     `!` when it is false.  `if x != 0 { return } ; <site>` and `if x == 0 { <site> }` both give `(x == 0)` for <site>."""
-    m = re.match(r'^(ne|eq)\((.*)\)$', c)
+    neg0 = False
+    m = re.match(r'^(!?)(?:[\w:<>]*::)?(ne|eq)\((.*)\)$', c)
+    if m:
+        # `!PartialEq::ne(a, b)` == `a == b`
+        if m.group(1):
+            holds = not holds
+        m = re.match(r'^(ne|eq)\((.*)\)$', m.group(2) + '(' + m.group(3) + ')')
     if m:
         inner = m.group(2)
         depth = 0
@@ -1102,3 +1108,13 @@ def param_calls(fn, name, idx):
             if p.root[0] == 'arg' and p.root[1] == want:
                 out.append(s)
     return out
+
+
+def canon(fn, text):
+    """Rendered symbolic text with every parameter name replaced by `$<position>` (a rename of a parameter must not change a verdict).
+    Field accesses (`self.size`), paths (`Layout::size`) and calls (`size(`) of the same spelling are left alone."""
+    for i in range(1, fn.nargs + 1):
+        nm = fn.local_name(i)
+        if nm and nm != 'self':
+            text = re.sub(r'(?<![\.\w:$])%s\b(?!\(|::)' % re.escape(nm), '$%d' % i, text)
+    return text
